@@ -27,6 +27,10 @@ func init() {
 		// F05d (fixed): two wildcard keys under one node
 		{"L", proto.L([]string{"/a/*w", "/a/*v"}), proto.B("/a/t")},
 		{"L", proto.L([]string{"/:id/*w", "/:y/*w"}), proto.B("/a/t")},
+		// F05f (fixed): a child of the root placed ON the root element (first bytes XOR to 3 / root BASE 0)
+		{"L", proto.L([]string{",/:a", "/:b"}), proto.B("/2")},
+		{"L", proto.L([]string{",/:a", "/:b"}), proto.B(",/1")},
+		{"L", proto.L([]string{"\x02-/:a", "\x02/:b"}), proto.B("\x02/7")},
 	}})
 }
 
@@ -224,6 +228,10 @@ func c05Gen(r *proto.Rng, n int, tier string, emit func(in ...string)) {
 			}
 			if !weird && c05DupNames(k) {
 				continue
+			}
+			if r.Chance(1, 10) {
+				// keys need not start with '/': other first bytes place the root's children elsewhere
+				k = r.Pick(",", "\x02", "a", "-", "\x01", "!", "~") + k
 			}
 			keys = append(keys, k)
 		}
